@@ -147,6 +147,11 @@ func mkRunnable(r *recorder, s svc, dn string) Runnable {
 			return ctx.Err()
 		case <-time.After(time.Duration(b.Delay) * time.Millisecond):
 		}
+		if ctx.Err() != nil {
+			// both were ready and the timer won: this instance has been cancelled, it does not fail on its own
+			r.add(dn, "cancel-seen", inc)
+			return ctx.Err()
+		}
 		r.add(dn, "fail", inc)
 		switch b.Kind {
 		case "error":
